@@ -106,10 +106,9 @@ func (c *P2Claims) SetBootSeed(v []byte) error {
 }
 
 func (c *P2Claims) SetCertificationReference(v string) error {
-	if !CertificationReferenceP1RE.MatchString(v) &&
-		!CertificationReferenceP2RE.MatchString(v) {
+	if !CertificationReferenceP2RE.MatchString(v) {
 		return fmt.Errorf(
-			"%w: MUST be in EAN-13 or EAN-13+5 format",
+			"%w: MUST be in EAN-13+5 format",
 			ErrWrongSyntax,
 		)
 	}
